@@ -290,9 +290,13 @@ def enumerate_grid(quick=True):
             n = sizes[cell]
             for b in FIXED_BATCH.get(cell, [(), (2,)] + batches_more):
                 for q in queries_full():
+                    # max_cholesky_size on both sides of n; the rank bound max_root_decomposition_size = 2 < n only where a
+                    # Krylov / pivoted route can run (max_cholesky_size(0), or an explicit Krylov method)
                     for mcs in sorted({0, n - 1, n, 800}):
-                        for mrs in (2, 100):
-                            add(cell, b, q, mcs=mcs, mrs=mrs)
+                        add(cell, b, q, mcs=mcs, mrs=100)
+                    add(cell, b, q, mcs=0, mrs=2)
+                    if q[1] in ("lanczos", "pivoted_cholesky"):
+                        add(cell, b, q, mcs=800, mrs=2)
                     if q[1] is None:
                         add(cell, b, q, mcs=0, fast=False)
                         add(cell, b, q, mcs=3, mrs=n)
